@@ -30,17 +30,33 @@ SLOTS = ['a', 'b', 'c']
 INITIAL = {'a': {'np': 1, 'cmd': 0, 'gt': 0, 'envn': 0}, 'b': {'np': 2, 'cmd': 0, 'gt': 0, 'envn': 0}, 'c': None, 'env': 0}
 
 
-def edits():
+def edits(compound=False):
     out = [('noop', None)]
     for s in SLOTS:
         out += [('toggle', s), ('np+', s), ('np-', s), ('cmd', s), ('gt', s), ('envn', s)]
     out.append(('env', None))
+    if compound:
+        # two options of one section changed by the same edit of the file (one reloadconfig for both)
+        for s in SLOTS:
+            for a in ('np+', 'np-'):
+                for b in ('cmd', 'gt', 'envn'):
+                    out.append((a + '&' + b, s))
+            out.append(('cmd&gt', s))
     return out
 
 
 def apply_edit(cfg, ed):
     """Returns (new cfg, set of slots whose effective settings change, kind) or None if the edit does not apply."""
     op, s = ed
+    if '&' in op:
+        a, b = op.split('&')
+        r1 = apply_edit(cfg, (a, s))
+        if r1 is None:
+            return None
+        r2 = apply_edit(r1[0], (b, s))
+        if r2 is None:
+            return None
+        return r2[0], r1[1] | r2[1], 'np&other' if a.startswith('np') else 'multi'
     c = copy.deepcopy(cfg)
     present = [x for x in SLOTS if cfg[x] is not None]
     if op == 'noop':
@@ -93,15 +109,14 @@ def bounds(tier):
 
 def shards(tier):
     E = edits()
+    EC = edits(compound=True)
     out = [('len1',)]
     for i in range(len(E)):
-        out.append(('pre', i, None))
-    D = depth(tier)
-    if D >= 3:
-        out = [('len1',)]
-        for i in range(len(E)):
-            for j in range(len(E)):
-                out.append(('pre', i, j))
+        for j in range(len(E)):
+            out.append(('pre', i, j))
+    # compound edits: all sequences of length <= 2 (quick) / <= 3 (thorough) over the larger alphabet
+    for i in range(len(EC)):
+        out.append(('cpre', i))
     return out
 
 
@@ -114,6 +129,18 @@ def sequences(shard, tier):
         for e1 in E:
             for e2 in E:
                 yield [e1, e2]
+        return
+    if shard[0] == 'cpre':
+        EC = edits(compound=True)
+        first = EC[shard[1]]
+        for e2 in EC:
+            if '&' in first[0] or '&' in e2[0]:
+                yield [first, e2]
+                if tier != 'quick':
+                    for e3 in EC:
+                        yield [first, e2, e3]
+        if '&' in first[0]:
+            yield [first]
         return
     _, i, j = shard
     for rest in itertools.product(E, repeat=D - 2):
